@@ -16,5 +16,8 @@ pub mod builtins;
 pub mod proc_sx;
 pub mod arrl_sx;
 pub mod recl_sx;
+pub mod aor_sx;
 pub mod procarr_sx;
 pub mod jmpl_sx;
+pub mod errl_sx;
+pub mod procj_sx;
